@@ -13,6 +13,8 @@ CONSTANTS
   ValuesPerOp = 2
   EditWhen = "always"
   Extras = 0
+  IdInGroup = FALSE
+  InGroup = FALSE
   Deviations = {"LoopRadiusNoneHalfApplied"}
 VIEW vw
 INVARIANT Mutual
@@ -29,4 +31,5 @@ PROPERTY CopyCopiesPartner
 PROPERTY EditIsLocal
 PROPERTY RefusedIsNoop
 PROPERTY ValidEditsAccepted
+PROPERTY GroupCopyOnce
 CHECK_DEADLOCK FALSE
